@@ -18,7 +18,7 @@ def workdir(tag):
 def run_cli(args, cwd, timeout=20):
     """-> dict(exit, stdout, stderr, hang)"""
     try:
-        p = subprocess.run([core.CLI_BIN] + args, cwd=cwd, capture_output=True, text=True, timeout=timeout)
+        p = subprocess.run([core.CLI_BIN] + args, cwd=cwd, capture_output=True, text=True, errors="replace", timeout=timeout)
         return {"exit": p.returncode, "stdout": p.stdout, "stderr": p.stderr, "hang": False}
     except subprocess.TimeoutExpired as e:
         return {"exit": None, "stdout": (e.stdout or b"").decode("utf-8", "replace") if isinstance(e.stdout, bytes) else (e.stdout or ""),
